@@ -65,15 +65,21 @@ type Stage struct {
 	A []Arg  `json:"a,omitempty"`
 }
 
-func (s Stage) Text() string {
+func (s Stage) Text() string { return s.text(&speller{}) }
+
+func (s Stage) text(sp *speller) string {
 	if len(s.A) == 0 {
 		return s.F
 	}
-	var as []string
-	for _, a := range s.A {
-		as = append(as, a.Text())
+	out := s.F + "("
+	for i, a := range s.A {
+		if i > 0 {
+			l, r := sp.around("comma")
+			out += l + "," + r
+		}
+		out += a.Text()
 	}
-	return s.F + "(" + strings.Join(as, ", ") + ")"
+	return out + ")"
 }
 
 // Case is pure data. Fam selects the family:
@@ -98,6 +104,9 @@ type Case struct {
 	// expr / neg family: the expression is evaluated inside nested v-for scopes (outermost first)
 	// that rebind a root variable: the reference evaluator resolves innermost-first.
 	Scope []Bind `json:"scope,omitempty"`
+	// expr / pipe family: the spacing the source is written with (see spellings); the tree, and
+	// so the expected value in every position, does not depend on it
+	Spell string `json:"spell,omitempty"`
 	Wrap  string `json:"wrap,omitempty"`
 	WrapX string `json:"wrapx,omitempty"`
 	Why   string `json:"why,omitempty"` // err family: unknown | arity | conversion | returned
@@ -149,7 +158,7 @@ func (c Case) scopeWrap() (open, close string) {
 func (c Case) Text() string {
 	switch c.Fam {
 	case "expr", "neg", "path":
-		return c.E.Text()
+		return c.E.Spelled(c.Spell)
 	}
 	if c.Call {
 		f := c.Stages[0].Text()
@@ -165,11 +174,13 @@ func (c Case) Text() string {
 		}
 		return f
 	}
-	parts := []string{c.Init}
+	sp := &speller{mode: c.Spell}
+	out := c.Init
 	for _, s := range c.Stages {
-		parts = append(parts, s.Text())
+		l, r := sp.around("sym") // the pipe is spaced like the symbolic operators
+		out += l + "|" + r + s.text(sp)
 	}
-	return strings.Join(parts, " | ")
+	return out
 }
 
 // attrEsc makes the expression safe inside a double-quoted attribute of the template source.
@@ -748,7 +759,7 @@ func TestProp(t *testing.T) {
 	// bounded exhaustive part, sharded: every operator x operand-source pairing at depth 1,
 	// every function x parameter/argument pairing, every error kind x function
 	shard, shards := run.Shard()
-	enum := append(append(g.enumerate(), g.enumSigs()...), g.enumScopes()...)
+	enum := append(append(append(g.enumerate(), g.enumSigs()...), g.enumScopes()...), g.enumSpellings()...)
 	okAll := true
 	for i, c := range enum {
 		if i%shards != shard {
